@@ -353,6 +353,22 @@ def run(ctx):
     infs = it.call_function(gp, [], {"element": el}, None, gp.node)
     got = sorted((i.get("name"), i.get("src")) for i in infs)
     r4.check(got == [("fruits", "jr://file-csv/fruits.csv"), ("prices", "jr://file-csv/prices.csv")], "pulldata", "each pulldata() first argument becomes a csv file instance", gp.loc(), why_fail=repr(got))
+    # every spelling of the call the extractor understands (blanks before / after the parenthesis, either quote) and every
+    # cell kind that can carry it declares the csv instance
+    for desc_, attrs_ in (("space before the parenthesis", {"bind": {"calculate": "pulldata ('fruits', 'name', 'key', ${k})"}}),
+                          ("blanks around the first argument", {"bind": {"relevant": "pulldata(  \"fruits\"  , 'n', 'k', 1) = 'x'"}}),
+                          ("in a default", {"bind": {"type": "string"}, "default": "pulldata('fruits', 'n', 'k', 1)"}),
+                          ("in a choice filter", {"bind": {"type": "string"}, "choice_filter": "name = pulldata('fruits', 'n', 'k', ${k})"}),
+                          ("in a constraint, tab before the parenthesis", {"bind": {"constraint": ". = pulldata\t('fruits', 'n', 'k', 1)"}})):
+        it.reset([])
+        kw_ = {"choice_filter": None, "default": None}
+        kw_.update(attrs_)
+        el_ = _mk(ctx, repo.cls("pyxform.question:InputQuestion"), "q", parent=Obj(None, {"type": "survey", "name": "data"}, name="data"), **kw_)
+        try:
+            got_ = sorted((i_.get("name"), i_.get("src")) for i_ in it.call_function(gp, [], {"element": el_}, None, gp.node))
+        except Raised as e:
+            got_ = f"raises {e.exc_name}"
+        r4.check(got_ == [("fruits", "jr://file-csv/fruits.csv")], f"pulldata[{desc_}]", "declares the csv instance `fruits`", gp.loc(), why_fail=repr(got_))
     # the last-saved instance is declared for every question kind and every cell kind that can carry
     # ${last-saved#name}: default, choice_filter (ordinary AND external selects: the latter are input questions whose
     # filter becomes the `query` predicate), and the bind expressions
